@@ -45,6 +45,10 @@ class Check(PropertyCheck):
             bits = declib.bzcraft.stream([b1], l1, rng) + declib.bzcraft.stream([b2], l2, rng)
             f = declib.bzcraft.to_bytes(bits)
             files.append((f, declib.libbz2_decode(f), "levels-up"))
+        # one big randomised block (legacy format feature): more than 278191 bytes, so that the randomisation table wraps around
+        for _ in range(1 if quick else 3):
+            f, plain = declib.bzcraft.big_rand_file(rng, rng.choice([280000, 300000, 450000]) if quick else rng.range(278192, 900000))
+            files.append((f, plain, "big-randomised"))
         # 20-bit codes: skewed table over >= 21 symbols
         for _ in range(6 if quick else 60):
             plain = bytes(rng.shuffle(list(range(40))) * 3)
